@@ -74,6 +74,8 @@ int main(int argc,char **argv){
         printf("ret %ld adv %ld link %d\n",r,(long)(t1-t0),bs);
         printf("out "); vc_puthex(stdout,buf,r>0?r:0); printf("\n");
         printf("prop guard %s\n",guard?"ok":"FAIL");
+        /* a non-positive word size is answered with an error whatever the state of the handle (end of stream included) */
+        if(word<=0&&r!=OV_EINVAL)printf("prop badword FAIL ret=%ld word=%d avail=%ld\n",r,word,avail);
         free(buf);
       }
     }
